@@ -18,6 +18,11 @@ pub fn worker_main(thorough: bool) {
     let stdin = std::io::stdin();
     let stdout = std::io::stdout();
     let mut exec = Executor::new(thorough);
+    exec.on_run_phase = Some(Box::new(|begin| {
+        let mut out = std::io::stdout().lock();
+        let _ = writeln!(out, "{}", if begin { "P" } else { "Q" });
+        let _ = out.flush();
+    }));
     for line in stdin.lock().lines() {
         let line = match line {
             Ok(l) => l,
@@ -145,7 +150,24 @@ where
                         busy[w].store(t0.elapsed().as_millis() as u64 + 1, Ordering::SeqCst);
                         let sent = writeln!(worker.stdin, "{}", line).and_then(|_| worker.stdin.flush());
                         let mut resp = String::new();
-                        let got = if sent.is_ok() { worker.stdout.read_line(&mut resp).unwrap_or(0) } else { 0 };
+                        let mut in_run_phase = false;
+                        let got = if sent.is_ok() {
+                            loop {
+                                resp.clear();
+                                let n = worker.stdout.read_line(&mut resp).unwrap_or(0);
+                                if n > 0 && resp.trim() == "P" {
+                                    in_run_phase = true;
+                                    continue;
+                                }
+                                if n > 0 && resp.trim() == "Q" {
+                                    in_run_phase = false;
+                                    continue;
+                                }
+                                break n;
+                            }
+                        } else {
+                            0
+                        };
                         busy[w].store(0, Ordering::SeqCst);
                         let rec = if got == 0 {
                             // worker died while executing this spec
@@ -160,14 +182,26 @@ where
                             };
                             worker = spawn_worker(cfg.thorough);
                             *children[w].lock().unwrap() = Some(worker.child.clone());
-                            Record {
-                                idx: spec.idx,
-                                group: spec.group.clone(),
-                                status: "ran".into(),
-                                outcome: class.clone(),
-                                detail: detail.clone(),
-                                failures: vec![(class, detail)],
-                                ..Default::default()
+                            if in_run_phase {
+                                Record {
+                                    idx: spec.idx,
+                                    group: spec.group.clone(),
+                                    status: "ran".into(),
+                                    outcome: class.clone(),
+                                    detail: detail.clone(),
+                                    failures: vec![(class, detail)],
+                                    ..Default::default()
+                                }
+                            } else {
+                                // died while building the input or evaluating
+                                // oracles: not a verdict about the operation
+                                Record {
+                                    idx: spec.idx,
+                                    group: spec.group.clone(),
+                                    status: "excluded".into(),
+                                    excluded_reason: format!("builder_{}: {}", class, detail),
+                                    ..Default::default()
+                                }
                             }
                         } else {
                             match serde_json::from_str::<serde_json::Value>(&resp) {
